@@ -268,7 +268,23 @@ def parse_data(body):
 
 
 def walk(items, base, objs, notes, parent_members, top=False):
+    # h5dump prints the attributes of a committed datatype AFTER the closing brace of its DATATYPE block, as items of
+    # the enclosing group (a group's own attributes come before its members): an ATTRIBUTE that follows a named
+    # DATATYPE member belongs to that datatype, not to the group
+    after_datatype = None
     for it in items:
+        if it.key in ("GROUP", "DATASET", "SOFTLINK", "EXTERNAL_LINK", "USERDEFINED_LINK"):
+            after_datatype = None
+        if it.key == "ATTRIBUTE" and after_datatype is not None and not top:
+            a = {}
+            fill(a, split_items(it.body or ""), notes, after_datatype + "@" + str(it.name))
+            if it.name is not None and ("dtype" in a or "space" in a):
+                objs.setdefault(after_datatype, {"kind": "datatype", "attrs": {}, "shown": 0})["attrs"][it.name] = a
+            continue
+        if it.key == "DATATYPE" and it.name is not None and it.body is None and not top:
+            # 'DATATYPE "name" H5T_...;' (an atomic committed datatype) or 'DATATYPE "name" HARDLINK "/other"'
+            after_datatype = it.name if it.name.startswith("/") else (base.rstrip("/") + "/" + it.name)
+            continue
         if it.key in ("GROUP", "DATASET", "DATATYPE") and it.name is not None and it.body is not None:
             kind = {"GROUP": "group", "DATASET": "dataset", "DATATYPE": "datatype"}[it.key]
             name = it.name
@@ -279,6 +295,8 @@ def walk(items, base, objs, notes, parent_members, top=False):
                 path = "/"
             if parent_members is not None and not name.startswith("/"):
                 parent_members.append(name)
+            if it.key == "DATATYPE" and not top:
+                after_datatype = path
             sub = split_items(it.body)
             o = objs.setdefault(path, {"kind": kind, "attrs": {}, "shown": 0})
             o["shown"] += 1
